@@ -342,7 +342,8 @@ def install(ctx, repo, probes):
                 ctx.target("fmt%d/%s/%s" % (fmt, kind, iv))
     for mode in R.MODES:
         ctx.target("mode/" + mode)
-    ctx.target("anchor-24:00", "reentrant-iteration")
+    ctx.target("anchor-24:00", "reentrant-iteration",
+               "single/three-notations")
     for fmt in (3, 4):
         for kind in ("bounded", "unbounded"):
             ctx.target("decimal/fmt%d/%s" % (fmt, kind))
@@ -440,6 +441,40 @@ def run_case(ctx, repo, case):
                                   len(again), desc))
             else:
                 ctx.cls("reentrant-iteration")
+        elif case["op"] == "single":
+            # one repetition: whatever the notation (and whatever second
+            # point or interval is spelled) the series is exactly the anchor
+            ctx.ev("single-notations")
+            a = desc["start"]
+            recs = [("start/duration", rec)]
+            for delta in (case["delta"], {k: -v for k, v in
+                                          case["delta"].items()}):
+                d1 = {"mode": mode, "fmt": 1, "reps": 1, "start": a,
+                      "delta": delta, "second_rep": case["second_rep"],
+                      "second_off": case["second_off"]}
+                recs.append(("start/second-point %r" % (delta,),
+                             recgen.build(repo, d1)))
+            recs.append(("duration/end", repo.TimeRecurrence(
+                repetitions=1, end_point=repo.tp(a),
+                duration=repo.dur(desc["dur"]))))
+            anchor = R.tp_key(repo.tp(a))
+            prob = None
+            for name, r in recs:
+                got = [R.tp_key(p) for p in consume(r, 5)]
+                if got != [anchor]:
+                    prob = "%s yields %r, not exactly the anchor" % (
+                        name, got)
+                elif (r == rec) is not True or (rec == r) is not True:
+                    prob = "%s does not compare equal to start/duration" % (
+                        name,)
+                elif hash(r) != hash(rec):
+                    prob = "%s hashes differently" % (name,)
+                if prob:
+                    break
+            if prob:
+                ctx.violation("single-notations", "%s for %r" % (prob, case))
+            else:
+                ctx.cls("single/three-notations")
         elif case["op"] == "three":
             # the three notations of one finite exact series
             n = desc["reps"]
@@ -523,6 +558,13 @@ def workload(ctx, repo):
             if recgen.is_single(desc):
                 continue
             case = {"op": "three", "desc": desc,
+                    "second_rep": rng.choice(gen.REPS),
+                    "second_off": list(gen.rand_offset(rng))}
+        elif k % 16 == 6:
+            desc = recgen.make(rng, mode, fmt=3, reps=1, interval="exact")
+            if not recgen._len(desc["dur"]):
+                continue
+            case = {"op": "single", "desc": desc, "delta": desc["dur"],
                     "second_rep": rng.choice(gen.REPS),
                     "second_off": list(gen.rand_offset(rng))}
         elif k % 8 == 4:
